@@ -101,7 +101,7 @@ CHECKS = {
     ),
     "C16": (
         "exhaustive pairs over a configuration grid + Hypothesis requires_python pairs; relational (monotonicity / nesting / compare laws) oracle",
-        "3600 EnvSpecs (30 requires_python x 30 platforms x 4 implementations): all 13M ordered pairs for the compare() relations, all same-(platform, implementation) pairs for wheel monotonicity over 176 wheels, all same-family platform release pairs for tag nesting; generated requires_python pairs on top.",
+        "3840 EnvSpecs (30 requires_python x 32 platforms x 4 implementations): all 14.7M ordered pairs for the compare() relations, all same-(platform, implementation) pairs for wheel monotonicity over 176 wheels, all same-family platform release pairs for tag nesting; 20 epoch-bearing requires_python texts x themselves (monotonicity decided on an epoch 0/1/2 probe grid); generated requires_python pairs on top. Pairs of Linux platforms across a major bump are the known finding T7 and are skipped and counted.",
         "Subset of requires_python decided with packaging on final, sub-micro and pre-release probe points; documented platform families only.",
         "DESIGN.md §5 C16",
     ),
